@@ -2,7 +2,6 @@ package hpacket
 
 import (
 	packettypes "github.com/bianjieai/tibc-go/modules/tibc/core/04-packet/types"
-	host "github.com/bianjieai/tibc-go/modules/tibc/core/24-host"
 	"github.com/bianjieai/tibc-go/zzverif/vp"
 )
 
@@ -14,7 +13,7 @@ func H_C03_ack() {
 	vp.Assume(p.Sequence < 100)
 	hasCommit := vp.Bool("pre.hasCommit")
 	p0 := packettypes.Packet{Data: vp.Bytes("pre.committedData", 0, 1)}
-	stored := packettypes.CommitPacket(p0)
+	stored := refCommit(p0.Data)
 	vp.SetIf(hasCommit, func() { k.SetPacketCommitment(ctx, p.SourceChain, p.DestinationChain, p.Sequence, stored) })
 	cp := cleanPre(k, ctx, p.SourceChain, p.DestinationChain)
 	maxAckPre := vp.Uint64("pre.maxAck") // 0 = never written
@@ -30,13 +29,13 @@ func H_C03_ack() {
 	if p.SourceChain == w.self && len(p.RelayChain) > 0 {
 		ackChain = p.RelayChain
 	}
-	commitKey := host.PacketCommitmentKey(p.SourceChain, p.DestinationChain, p.Sequence)
-	ackKey := host.PacketAcknowledgementKey(p.SourceChain, p.DestinationChain, p.Sequence)
-	maxKey := host.MaxAckSeqKey(p.SourceChain, p.DestinationChain)
+	commitKey := refCommitmentKey(p.SourceChain, p.DestinationChain, p.Sequence)
+	ackKey := refAckKey(p.SourceChain, p.DestinationChain, p.Sequence)
+	maxKey := refMaxAckKey(p.SourceChain, p.DestinationChain)
 	if err == nil {
 		vp.Reach("ack accepted")
-		vp.Assert(vp.And(hasCommit, sameBytes(stored, packettypes.CommitPacket(p))), "C03.1 accepted only while this chain still holds the commitment of exactly that packet")
-		vp.Assert(okCall(w, 2, ackChain, h, proof, p.SourceChain, p.DestinationChain, p.Sequence, packettypes.CommitAcknowledgement(ack)),
+		vp.Assert(vp.And(hasCommit, sameBytes(stored, refCommit(p.Data))), "C03.1 accepted only while this chain still holds the commitment of exactly that packet")
+		vp.Assert(okCall(w, 2, ackChain, h, proof, p.SourceChain, p.DestinationChain, p.Sequence, refCommit(ack)),
 			"C03.1 accepted only after the acknowledging chain's client verified sha256(ack) for (src,dst,seq) at the submitted height")
 		vp.Assert(hasClient(w, ackChain), "C03.1 the acknowledging chain has a registered client")
 		vp.Assert(p.Sequence > cp, "C10.4 acknowledgements at or below the clean point are refused")
@@ -48,7 +47,7 @@ func H_C03_ack() {
 		stAck, has := k.GetPacketAcknowledgement(ctx, p.SourceChain, p.DestinationChain, p.Sequence)
 		if p.RelayChain == w.self {
 			vp.Reach("ack passes through relay chain")
-			vp.Assert(vp.And(has, sameBytes(stAck, packettypes.CommitAcknowledgement(ack))), "C11.4 the relay chain records the hash of exactly the submitted acknowledgement")
+			vp.Assert(vp.And(has, sameBytes(stAck, refCommit(ack))), "C11.4 the relay chain records the hash of exactly the submitted acknowledgement")
 			vp.Assert(hasClient(w, p.SourceChain), "C11.4 passed on only if the source is known")
 		} else {
 			vp.Assert(!has, "C11.3 no acknowledgement is recorded when this chain is not the relay chain")
@@ -60,7 +59,7 @@ func H_C03_ack() {
 	if !anyOk(w) {
 		vp.Assert(err != nil, "C03.1 no successful verification => rejected")
 	}
-	if hasCommit && sameBytes(stored, packettypes.CommitPacket(p)) && p.Sequence > cp && len(p.Data) > 0 && involves(p, w.self) && hasClient(w, ackChain) && allOk(w) {
+	if hasCommit && sameBytes(stored, refCommit(p.Data)) && p.Sequence > cp && len(p.Data) > 0 && involves(p, w.self) && hasClient(w, ackChain) && allOk(w) {
 		if p.RelayChain != w.self || hasClient(w, p.SourceChain) {
 			vp.Assert(err == nil, "C03.6 a genuine acknowledgement of a pending packet is accepted")
 		}
@@ -73,7 +72,7 @@ func H_C03_writeack() {
 	p := nondetPacket("p")
 	vp.Assume(p.Sequence < 100 && p.Sequence >= 1)
 	hasAck := vp.Bool("pre.hasAck")
-	old := packettypes.CommitAcknowledgement(vp.Bytes("pre.oldAck", 1, 1))
+	old := refCommit(vp.Bytes("pre.oldAck", 1, 1))
 	vp.SetIf(hasAck, func() { k.SetPacketAcknowledgement(ctx, p.SourceChain, p.DestinationChain, p.Sequence, old) })
 	maxAckPre := vp.Uint64("pre.maxAck") // 0 = never written
 	vp.SetIf(maxAckPre > 0, func() { k.SetMaxAckSequence(ctx, p.SourceChain, p.DestinationChain, maxAckPre) })
@@ -91,11 +90,11 @@ func H_C03_writeack() {
 		vp.Reach("ack written")
 		vp.Assert(len(ack) > 0, "C03.4 an empty acknowledgement is never recorded")
 		vp.Assert(!hasAck, "C03.4 an existing acknowledgement is never overwritten")
-		vp.Assert(vp.And(has, sameBytes(got, packettypes.CommitAcknowledgement(ack))), "C03.4 the recorded value is the hash of exactly the bytes passed")
+		vp.Assert(vp.And(has, sameBytes(got, refCommit(ack))), "C03.4 the recorded value is the hash of exactly the bytes passed")
 		vp.Assert(hasClient(w, target), "C03.4 written only if the chain the ack travels to is known")
 		m := k.GetMaxAckSequence(ctx, p.SourceChain, p.DestinationChain)
 		vp.Assert(vp.And(m >= p.Sequence, m >= maxAckPre, vp.Or(m == p.Sequence, m == maxAckPre)), "C10.2 high-water mark is max(previous, sequence)")
-		vp.Assert(onlyWrote(ctx, mark, host.PacketAcknowledgementKey(p.SourceChain, p.DestinationChain, p.Sequence), host.MaxAckSeqKey(p.SourceChain, p.DestinationChain)),
+		vp.Assert(onlyWrote(ctx, mark, refAckKey(p.SourceChain, p.DestinationChain, p.Sequence), refMaxAckKey(p.SourceChain, p.DestinationChain)),
 			"C03.4 writing an acknowledgement touches only its slot and the channel's high-water mark")
 	} else {
 		vp.Reach("ack write refused")
